@@ -301,7 +301,7 @@ pub fn run(report: &mut Report, replay: Option<&Value>) {
         return;
     }
     super::replay_corpus(report, &|r, v| replay_one(r, v));
-    let n = if report.thorough() { 150_000 } else { 8_000 };
+    let n = if report.thorough() { 150_000 } else { 40_000 };
     let scratch = Scratch::new("c17");
     let mut stats = GenStats::default();
     let tapes = sample_tapes(report.seed, 0xC17, n, 2048);
